@@ -284,7 +284,7 @@ fn contents_shared(doc: &Document, page: ObjectId) -> bool {
         return true;
     }
     doc.page_iter().filter(|p| *p != page).any(|p| doc.get_page_contents(p).iter().any(|i| mine.contains(i)))
-        || doc.page_iter().filter(|p| *p == page).count() > 1
+        || doc.page_iter().fold(0usize, |n, p| if p == page { n + 1 } else { n }) > 1
 }
 
 /// the page has no Resources entry of its own but an ancestor provides one
